@@ -79,8 +79,11 @@ def generate(seed, tier="quick"):
     # the session is started in a directory next to the project, which is a project of its own with a format-command configured; the project under
     # test has none, so its files are formatted (or left alone) exactly as if pytest had been started inside it
     elsewhere = sub(seed, "elsewhere").random() < 0.25
+    # black fails for some of the value fragments it is asked to format (and only for them): the whole-file pass still runs
+    grng = sub(seed, "fragment-failures")
+    frag_fail = sorted(grng.sample(range(0, 6), grng.randint(1, 3))) if (not elsewhere and grng.random() < 0.2) else None
     return {"program": prog, "black": draw_mode(sub(seed, "mode")), "steps": steps, "clean": sub(seed, "clean").random() < (0.5 if elsewhere else 0.75), "subdir": subdir,
-            "elsewhere": elsewhere}
+            "elsewhere": elsewhere, "frag_fail": frag_fail}
 
 
 def execute(case, ctx):
@@ -116,6 +119,9 @@ def execute(case, ctx):
         if case.get("elsewhere"):
             ctx.count("probe_session_started_in_a_neighbouring_project_with_a_format_command")
             spec.update(from_sibling=True, start_pyproject=sim.pyproject_for({"kind": "cmd"}), fmt={"kind": "cmd", "stub": "black", "mode": {"line_length": 33}})
+        if case.get("frag_fail"):
+            ctx.count("probe_black_fails_for_single_fragments")
+            spec["fmt"] = {"kind": "raises", "fragments_at": case["frag_fail"]}
         new, res = sim.run_session(ctx, "plugin", cur, spec)
         if not sim.session_completed("plugin", res):
             out["discards"]["session-did-not-complete(C18)"] = 1
@@ -178,6 +184,8 @@ def shrink(case):
         yield dict(case, subdir=None)
     if case.get("elsewhere"):
         yield dict(case, elsewhere=False)
+    if case.get("frag_fail"):
+        yield dict(case, frag_fail=None)
     for k in list(case["black"]):
         b = dict(case["black"])
         del b[k]
